@@ -1,3 +1,5 @@
 #!/bin/bash
+# Regenerates _CoqProject from the .v files known to git (git add new files first) and the Makefile.
 cd "$(dirname "$0")"
-find theories -name '*.v' | sort > /tmp/vfiles.$$ && (head -2 _CoqProject; cat /tmp/vfiles.$$) > _CoqProject.new && mv _CoqProject.new _CoqProject && rm /tmp/vfiles.$$ && coq_makefile -f _CoqProject -o Makefile >/dev/null
+(echo "-Q theories HIDI"; echo "-arg -w -arg -notation-overridden,-deprecated-hint-without-locality,-deprecated-instance-without-locality"; git ls-files theories | grep '\.v$' | sort) > _CoqProject
+coq_makefile -f _CoqProject -o Makefile >/dev/null
